@@ -117,6 +117,7 @@ def c04(run):
 
 
 PROPS = {"C01": c01, "C04": c04}
+REPLAYERS = {}      # optional per-property `replay_file(path, seed)` (a module p_cXX.py may define one)
 
 
 def _discover():
@@ -126,6 +127,8 @@ def _discover():
         name = os.path.splitext(os.path.basename(f))[0]
         mod = importlib.import_module("vc." + name)
         PROPS[name[2:].upper()] = mod.run
+        if hasattr(mod, "replay_file"):
+            REPLAYERS[name[2:].upper()] = mod.replay_file
 
 
 _discover()
@@ -141,6 +144,8 @@ def main(argv):
         print("unknown property", prop); return 2
     seed = int(os.environ.get("VERIF_SEED", lib.DEFAULT_SEED))
     if len(argv) >= 3 and argv[1] == "--replay":
+        if prop in REPLAYERS:
+            return REPLAYERS[prop](argv[2], seed)
         return replay_file(prop, argv[2], seed)
     tier = argv[1] if len(argv) > 1 else os.environ.get("VERIF_TIER", "quick")
     return lib.main_wrapper(PROPS[prop], prop, tier, seed)
